@@ -212,7 +212,64 @@ def check_defaults_and_ctor(tkey, seed):
     return n, vs
 
 
+def first_use_table(mode):
+    """Defaults reported by cls() in THIS process, where the first-ever instance of each type was built
+    with constructor keywords (mode 'kwargs-first'), through a project (mode 'new-module-first') or plainly."""
+    import rv.api as rv
+
+    out = {}
+    for tkey, t in spec.types().items():
+        cls = cls_of(tkey)
+        kw = {}
+        for c in t.controllers:
+            if c.kind in ("range", "compact", "no_offset") and c.max != c.default:
+                kw[c.attr] = c.max
+            elif c.kind == "bool":
+                kw[c.attr] = not c.default
+            elif c.kind == "enum":
+                vals = sorted(set(c.members.values()))
+                kw[c.attr] = vals[-1] if c.members[c.default] != vals[-1] else vals[0]
+        if tkey != "Output":
+            if mode == "kwargs-first":
+                cls(**kw)
+            elif mode == "new-module-first":
+                rv.Project().new_module(cls, **kw)
+        m = cls()
+        out[tkey] = {c.name: as_int(getattr(m, c.attr)) for c in t.controllers}
+    return out
+
+
+def first_use_independence():
+    """A fresh module's defaults must not depend on how the first instance of its type was created in the
+    process: three fresh interpreters (plain / kwargs first / new_module first), compared with the spec."""
+    import json
+    import os
+    import subprocess
+    import sys
+
+    vs = []
+    n = 0
+    env = dict(os.environ, PYTHONPATH=treeenv.VERIF, PYTHONHASHSEED="0")
+    for mode in ("plain", "kwargs-first", "new-module-first"):
+        code = ("import json; from rvmc import treeenv; treeenv.setup(); from checks import c09; "
+                f"print(json.dumps(c09.first_use_table({mode!r})))")
+        r = subprocess.run([sys.executable, "-c", code], capture_output=True, text=True, env=env, cwd=treeenv.VERIF)
+        if r.returncode != 0:
+            return n, [C.viol("first-use-run-failed", {"mode": mode}, {"stderr": r.stderr[-300:]}, {"first_use": True})]
+        tb = json.loads(r.stdout.strip().splitlines()[-1])
+        for tkey, t in spec.types().items():
+            for c in t.controllers:
+                n += 1
+                exp = int(expect_default(c))
+                if tb[tkey][c.name] != exp:
+                    vs.append(C.viol("default-depends-on-first-use", {"type": tkey, "controller": c.name, "mode": mode},
+                                     {"expected": exp, "observed": tb[tkey][c.name]}, {"first_use": True}))
+    return n, vs[:20]
+
+
 def run_case(case):
+    if case.get("first_use"):
+        return first_use_independence()[1]
     if case.get("default") or "ctor" in case:
         _n, vs = check_defaults_and_ctor(case["type"], 0)
         return [v for v in vs if v["key"].get("controller") == case["controller"]]
@@ -254,6 +311,9 @@ def run(ctx):
     for r in ctx.pmap(_task, tasks, chunksize=4):
         agg.merge(r)
     ctx.add(agg.violations)
+    n_fu, v_fu = first_use_independence()
+    ctx.add(v_fu)
+    agg.evals += n_fu
     if errors.RAISE_CONTROLLER_VALUE_ERRORS is not flag_before:
         ctx.add([C.viol("strictness-flag-leaked", {}, {}, None)])
     return {
@@ -263,6 +323,6 @@ def run(ctx):
                 "as every ordered pair, strict and lenient, attribute and constructor path; each (controller, mode, "
                 "sequence) is distinct by construction; non-trivial = sequences beyond the bare default read",
         "exhaustive": True,
-        "types": len(spec.types()), "controllers": nctl, "controller_mode_tasks": agg.counters.get("controller_modes", 0),
+        "first_use_comparisons": n_fu, "types": len(spec.types()), "controllers": nctl, "controller_mode_tasks": agg.counters.get("controller_modes", 0),
         "samples": agg.samples,
     }
